@@ -417,20 +417,27 @@ def observe_written(spec):
     fd, path = tempfile.mkstemp(prefix="c19_", suffix=".blockMeshDict")
     os.close(fd)
     try:
-        with warnings.catch_warnings():
-            warnings.simplefilter("ignore")
-            mesh.write(path, debug_path=None)
+        try:
+            with warnings.catch_warnings():
+                warnings.simplefilter("ignore")
+                mesh.write(path, debug_path=None)
+        except Exception as e:
+            return dict(n=len(stack.operations), deleted=deleted[0] if len(deleted) == 1 else 9999, cells=[], ids=[],
+                        err="%s: %s" % (type(e).__name__, str(e)[:120]))
         with open(path) as f:
             text = f.read()
     finally:
         os.remove(path)
     wcells = parse_written(text, lat)
-    return dict(n=len(stack.operations), deleted=deleted[0] if len(deleted) == 1 else 9999, cells=wcells,
+    return dict(err=None, n=len(stack.operations), deleted=deleted[0] if len(deleted) == 1 else 9999, cells=wcells,
                 ids=[cell_id.get(tuple(c), 9999) for c in wcells])
 
 
 def oracle_written(spec, ob):
     nx, ny, nz = spec["nx"], spec["ny"], spec["nz"]
+    if ob.get("err"):
+        return ["writing the mesh after delete(grid[%d][%d][%d]) raised %s" % (
+            spec["delete"][2], spec["delete"][1], spec["delete"][0], ob["err"])]
     exp = sorted((i, j, k) for i in range(nx) for j in range(ny) for k in range(nz) if [i, j, k] != list(spec["delete"]))
     got = sorted(tuple(c) for c in ob["cells"])
     if got != exp:
@@ -1014,7 +1021,15 @@ class C19(Prop):
             spec["what"] = "delete"
             spec["delete"] = [ctx.rng.randrange(nx), ctx.rng.randrange(ny), ctx.rng.randrange(nz)]
             spec["chop"] = [ctx.rng.randrange(nx), ctx.rng.randrange(ny), ctx.rng.randrange(nz), ctx.rng.randrange(3)]
-            ob = observe_delete(spec)
+            try:
+                ob = observe_delete(spec)
+            except GenError:
+                raise
+            except Exception as e:  # the library failed on a legal use: a finding with a replay, not a harness error
+                res.oracle_failures.append(dict(spec, why="delete/chop/assemble of an addressed operation raised %s: %s" % (
+                    type(e).__name__, str(e)[:120]), sig="C19:delete:exception"))
+                res.mismatches.append(dict(spec, mismatch="delete/chop raised %s" % type(e).__name__))
+                continue
             ob["chop_axis"] = spec["chop"][3]
             cid += 1
             descr[cid] = dict(spec)
@@ -1028,8 +1043,8 @@ class C19(Prop):
                 res.oracle_failures.append(dict(spec, why=why[0], sig=sig_delete(why[0])))
             if len(res.samples) < 3:
                 res.samples.append(dict(spec=spec, blocks=[(o, list(c), a) for (o, c, a) in ob["blocks"]][:8]))
-            # the same deletion observed in the WRITTEN file (every 3rd case in the quick tier; needs >= 1 block left)
-            if ob["n"] > 1 and (not ctx.quick or (n % 3 == 0 and ob["n"] <= 36)):
+            # the same deletion observed in the WRITTEN file (every 5th case in the quick tier; needs >= 1 block left)
+            if ob["n"] > 1 and (not ctx.quick or (n % 5 == 0 and ob["n"] <= 36)):
                 wspec = dict(spec, what="written")
                 wob = observe_written(wspec)
                 cid += 1
@@ -1137,6 +1152,24 @@ class C19(Prop):
             if rp:
                 fails.append(rp)
         if not fails:
+            for kind in ("extruded", "revolved", "transformed"):
+                for (nx, ny, nz) in ((2, 3, 2), (3, 1, 2)):
+                    spec = stack_spec(kind, nx, ny, nz, rand_placement(ctx.rng), variant=nx)
+                    spec["delete"] = [ctx.rng.randrange(nx), ctx.rng.randrange(ny), 0]
+                    spec["chop"] = [ctx.rng.randrange(nx), ctx.rng.randrange(ny), ctx.rng.randrange(nz), ctx.rng.randrange(3)]
+                    for what in ("delete", "written"):
+                        try:
+                            rp = replay_case(dict(spec, what=what))
+                        except Exception as e:
+                            rp = dict(spec, what=what, why="observation failed: %s: %s" % (type(e).__name__, str(e)[:120]),
+                                      sig="C19:delete:exception")
+                        if rp:
+                            fails.append(rp)
+                    if fails:
+                        break
+                if fails:
+                    break
+        if not fails:
             # small enumerative search with the oracle
             for kind in ("extruded", "revolved", "transformed"):
                 for (nx, ny, nz) in ((2, 3, 2), (3, 2, 4), (1, 5, 3), (4, 4, 1)):
@@ -1181,7 +1214,8 @@ def sig_round(name, why):
     base = re.sub(r"_oval$|_\d+$", "", name)
     fixed = {("HalfSplineDisk", "partition"): "C19:halfsplinedisk-grid", ("HalfSplineDisk", "grid"): "C19:halfsplinedisk-grid",
              ("HalfSplineDisk", "shell"): "C19:halfsplinedisk-grid", ("HalfSplineDisk", "core"): "C19:halfsplinedisk-grid",
-             ("WrappedDisk", "partition"): "C19:wrappeddisk-core", ("RevolvedRing", "unavailable"): "C19:revolvedring-grid",
+             ("WrappedDisk", "partition"): "C19:wrappeddisk-core", ("WrappedDisk", "shell"): "C19:wrappeddisk-core",
+             ("RevolvedRing", "unavailable"): "C19:revolvedring-grid",
              ("RevolvedRing", "grid"): "C19:revolvedring-grid", ("RevolvedRing", "partition"): "C19:revolvedring-grid"}
     for wrap in ("RoundSolidShape(%s)",):
         for (b, k), s in list(fixed.items()):
